@@ -6,6 +6,7 @@ import (
 	"bytes"
 	"context"
 	"crypto/tls"
+	"errors"
 	"io"
 	"net"
 	"net/http"
@@ -88,7 +89,7 @@ func verifC17RawRequest(v vsx) *conformancev1.RawHTTPRequest {
 }
 
 type verifC17Seen struct {
-	method, path string
+	method, target string
 	query        map[string][]string
 	header       http.Header
 	body         []byte
@@ -108,7 +109,7 @@ func verifC17Start() {
 	verifC17Once.Do(func() {
 		rec := http.HandlerFunc(func(w http.ResponseWriter, r *http.Request) {
 			body, _ := io.ReadAll(r.Body)
-			verifC17Got <- &verifC17Seen{method: r.Method, path: r.URL.Path, query: r.URL.Query(), header: r.Header.Clone(), body: body, proto: r.ProtoMajor}
+			verifC17Got <- &verifC17Seen{method: r.Method, target: verifC17Target(r), query: r.URL.Query(), header: r.Header.Clone(), body: body, proto: r.ProtoMajor}
 			_, _ = w.Write([]byte("ok"))
 		})
 		verifC17Srv = httptest.NewServer(h2c.NewHandler(rec, &http2.Server{}))
@@ -123,6 +124,45 @@ func verifC17Start() {
 	})
 }
 
+// the request target as it was on the wire: r.RequestURI (request line / :path); it must agree with what
+// net/http parsed from it (EscapedPath + RawQuery), else the observation is marked
+func verifC17Target(r *http.Request) string {
+	t := r.URL.EscapedPath()
+	if r.URL.ForceQuery || r.URL.RawQuery != "" {
+		t += "?" + r.URL.RawQuery
+	}
+	if t != r.RequestURI {
+		return "INCONSISTENT " + r.RequestURI + " vs " + t
+	}
+	return r.RequestURI
+}
+
+var errVerifC17Glued = errors.New("verif: request is for another authority")
+
+// the transport below rawRequestSender: refuses a request whose authority is not the given server's
+// (a URI that does not start with '/', '?' or '#' runs into host, port or userinfo)
+type verifC17Guard struct {
+	next http.RoundTripper
+	host string
+}
+
+func (g verifC17Guard) RoundTrip(req *http.Request) (*http.Response, error) {
+	if req.URL.Host != g.host || req.URL.User != nil {
+		if req.Body != nil {
+			_ = req.Body.Close()
+		}
+		return nil, errVerifC17Glued
+	}
+	return g.next.RoundTrip(req)
+}
+
+// the query string written in the URI itself (before the fragment), nil if there is none
+func verifC17URIQuery(uri string) (string, bool) {
+	u, _, _ := strings.Cut(uri, "#")
+	_, q, ok := strings.Cut(u, "?")
+	return q, ok
+}
+
 // table version rawrequest -> (err) | (0 method path ((name (values))...) ((header (values))...) #body)
 // The request connect-go "would have built" is a POST to /orig/path?orig=1 with its own header and body.
 func verifC17Request(args []vsx) vsx {
@@ -135,8 +175,20 @@ func verifC17Request(args []vsx) vsx {
 		return vL(vS("bad-case"))
 	}
 	raw := verifC17RawRequest(args[2])
-	if !strings.HasPrefix(raw.Uri, "/") {
-		return vL(vS("bad-case")) // origin-form URIs only
+	// outside what the recording server can observe / what is modelled (mirrors uri_observable, uri_class)
+	if q, ok := verifC17URIQuery(raw.Uri); ok {
+		for i := 0; i < len(q); i++ {
+			if q[i] == ' ' || q[i] >= 0x80 {
+				return vL(vS("bad-case"))
+			}
+		}
+	}
+	if raw.Verb == "CONNECT" {
+		return vL(vS("bad-case"))
+	}
+	hasParams := len(raw.RawQueryParams) > 0 || len(raw.EncodedQueryParams) > 0
+	if hasParams && strings.HasPrefix(raw.Uri, "//") && !strings.HasPrefix(raw.Uri, "///") {
+		return vL(vS("bad-case"))
 	}
 	transport := verifC17H1
 	if version == 2 {
@@ -153,7 +205,7 @@ func verifC17Request(args []vsx) vsx {
 	}
 	orig.Header.Set("X-Verif-Orig-Marker", "1")
 	orig.Header.Set("Content-Type", "application/x-verif-orig")
-	sender := &rawRequestSender{transport: transport, rawRequest: raw}
+	sender := &rawRequestSender{transport: verifC17Guard{next: transport, host: orig.URL.Host}, rawRequest: raw}
 	resp, err := sender.RoundTrip(orig)
 	if err != nil {
 		return vErr("roundtrip")
@@ -195,7 +247,7 @@ func verifC17Request(args []vsx) vsx {
 	for _, k := range qk {
 		qs = append(qs, vL(vS(k), vStrs(seen.query[k])))
 	}
-	return vL(vI(0), vS(seen.method), vS(seen.path), vL(qs...), vL(hdrs...), vB(seen.body))
+	return vL(vI(0), vS(seen.method), vS(seen.target), vL(qs...), vL(hdrs...), vB(seen.body))
 }
 
 var _ = bytes.Equal
